@@ -124,7 +124,7 @@ def run(ctx):
         stats["oracle_gap_skipped"] += info["gap_skipped"]
         stats["oracle_tie_accepted"] += info["tie_accepted"]
         if msg:
-            key = F.KEY_F28 if ("sel" in r and F.abs_guard_fires(c, r["sel"])) else None
+            key = F.KEY_F28 if F.abs_guard_fires(c, r) else None
             stats["finding_F28_hits"] += key is not None
             C.report_violation(ctx, "C07 fails on the implementation: " + msg
                                + (" [warm start: residual of a selected item exceeds the absolute tolerance]"
@@ -157,7 +157,7 @@ def run(ctx):
         elif i not in reported:
             broke = ([] if sched_ok else ["schedule / zeroing / arg-max (exact)"]) + \
                     [FLAGS[j] for j, b in enumerate(flags) if not b]
-            key = F.KEY_F28 if F.abs_guard_fires(c, r["sel"]) else None
+            key = F.KEY_F28 if F.abs_guard_fires(c, r) else None
             C.report_violation(
                 ctx, "correspondence CUR model vs implementation broken: %s (oracle accepts the output)"
                 % "; ".join(broke),
@@ -206,7 +206,8 @@ def run(ctx):
 
 
 def slim(r):
-    out = {k: v for k, v in r.items() if k in ("sel", "stages", "error", "warnings")}
+    out = {k: v for k, v in r.items() if k in ("sel", "error", "warnings")}
+    out["stages"] = [dict(sel=s["sel"], nsel=s["nsel"]) for s in r.get("stages", [])]
     if "refresh" in r and r["refresh"] is not None:
         out["n_refresh"] = len(r["refresh"])
     if "presented" in r:
